@@ -432,13 +432,17 @@ func (cs *connState) LookupFID(fid fid) (*fidRef, bool) {
 // the slot already it is closed, per the specification.
 func (cs *connState) InsertFID(fid fid, newRef *fidRef) {
 	cs.fidMu.Lock()
-	defer cs.fidMu.Unlock()
 	origRef, ok := cs.fids[fid]
-	if ok {
-		defer origRef.DecRef()
-	}
 	newRef.IncRef()
 	cs.fids[fid] = newRef
+	cs.fidMu.Unlock()
+
+	// Drop the replaced reference without fidMu held: that may close the
+	// file, and a slow File.Close must not stall every other request of
+	// this connection.
+	if ok {
+		origRef.DecRef()
+	}
 }
 
 // Deletefid removes the given fid.
@@ -446,12 +450,15 @@ func (cs *connState) InsertFID(fid fid, newRef *fidRef) {
 // This simply removes it from the map and drops a reference.
 func (cs *connState) DeleteFID(fid fid) error {
 	cs.fidMu.Lock()
-	defer cs.fidMu.Unlock()
 	fidRef, ok := cs.fids[fid]
 	if !ok {
+		cs.fidMu.Unlock()
 		return linux.EBADF
 	}
 	delete(cs.fids, fid)
+	cs.fidMu.Unlock()
+
+	// Drop the reference without fidMu held (see InsertFID).
 	return fidRef.DecRef()
 }
 
